@@ -42,6 +42,12 @@ CHECKS = {
         "'.'/':' line writer vs sna2skool's distribution (mutual inverses for all comment groups). Whole-file composition (headers, @ directives, M spans, DEFW/DEFS, braces) "
         'is correspondence + e2e (3000 random round trips per quick run) only. Five genuine defects found here were repaired by fix: commits.',
    note=TB + 'hand models Model/CtlLengths, CtlCompose, CtlComments tied by correspondence (14.6k cases/run); text layer CtlText has no theorems', ref='§8 C03'),
+ 'C08': dict(cat='proof', technique='Lean 4 theorems over models regenerated from simulator.py/cmiosimulator.py by an AST translator (generic tactic per closure; induction over runs; kernel enumeration for masks) + per-slot differential validation of the translation against 4 real simulators',
+   text='ROM preservation and T-monotonicity are proved for every closure with any arguments, any state, any lawful memory, and lifted to runs of any length for both Python simulators '
+        '(48K list memory and the 128K Memory+PagingTracer model). Range invariant (all registers/cells/state fields) is proved per closure by one generic tactic; closures it does not yet close '
+        'are excluded explicitly (ranges_preserved_partial). 128K paging: refinement to "mapping = f(last accepted write)", lock absorbing, one-bank writes, visible slots, decode mask = A15/A1 over all 65536 ports. '
+        'C simulators: differential execution against the model (all 1792 slots) and program-level oracle only.',
+   note=TB + 'translator py2lean.py/cdispatch.py trusted but validated each run (all slots x random boundary states, 4 implementations); Mem128 hand model tied by correspondence', ref='§8 C08'),
 }
 NA = {}
 def main():
